@@ -16,6 +16,14 @@ claimed = {
              text='Proved for any number of registered hooks: each dispatcher call invokes every registered hook exactly once; a non-informational server message reaches every message hook exactly once and is then passed on, an informational message reaches no hook and is never passed on, environment changes are consumed and never delivered as packages, and a packet size is applied only if it fits the packet header. Proof level for these per-function statements.',
              note='Not mechanised: the error aggregation in NextPackageUntil (all messages so far, in order, still matching the callback error), the nonlinear per-member hook count, registration concurrent with a response.',
              ref='3 C11'),
+ 'C12': dict(tech='contract-based deductive verification of the sequential contracts of channel creation and packet stamping (VCs from go/ssa, z3/cvc5); interleavings are outside the technique',
+             text='Proved for single calls: a new channel gets an id in 0..65535 that was not a key of the channel map, is wired to its connection with well-formed queues, and a logical channel is reported as set up only after a header-only acknowledgement arrived; outgoing packets of a logical channel carry its id and consecutive packet numbers modulo 256. Proof level for these sequential per-function statements only.',
+             note='The property quantifies over interleavings and demands race freedom; a deductive verifier without a concurrency model cannot decide that part, and the routing lookup in Conn.ReadFrom (map of pointers, goroutine) is outside the generator. A genuine defect (setup acknowledgement never recognised) was repaired.',
+             ref='3 C12'),
+ 'C13': dict(tech='contract-based deductive verification of the closed-state postconditions of the channel entry points (VCs from go/ssa, z3/cvc5); blocking and time are outside the technique',
+             text='Proved for single calls: every entry point of a closed channel returns an error matching ErrChannelClosed, delivers nothing and leaves wire and queues untouched; nothing is put on the package channel of a closed channel; Close closes the package channel exactly once. Proof level for these sequential per-function statements only.',
+             note='Never-blocks, promptness after cancellation and bounded-time Close are liveness/timing statements over goroutine schedules and are not decided. A genuine defect (second Close panics) was repaired.',
+             ref='3 C13'),
  'C14': dict(tech='contract-based deductive verification: error-path postconditions of the packet reader over a ghost transport stream with a failure flag, VCs from go/ssa, z3/cvc5',
              text='Proved for every failure offset and every Read partition: Packet.ReadFrom returns nil, or an error matching io.EOF, only together with a complete packet whose body equals the stream bytes; any other return is an error that occurs only if the transport failed or the context is done; a partial header is never reported as io.EOF. Hence the dispatcher, which forwards a packet only on nil or io.EOF, never forwards incomplete data; incomplete package data inside complete packets is reported as ErrNotEnoughBytes (C07). Proof level for these per-function statements.',
              note='Time bounds (read timeout) and the absence of a spurious final DONE after a failure are whole-history statements over the reader goroutine and are not mechanised; Conn.ReadFrom itself is outside the generator (maps of pointers, goroutines).',
